@@ -314,6 +314,30 @@ def check_float(F, b, prec):
                 fail("bin-roundtrip", f"bin2float(float2bin):{kind}", got=pat(back), s=s)
     except Exception as e:
         fail("bin-exception", f"bin:{kind}:{type(e).__name__}", exc=repr(e)[:200])
+    # --- expansion built from the exact fraction (docstring of fraction2expansion: "If the length of output is smaller than the
+    # specified length then the conversion is exact"): the float itself, and the float plus a second float far below its last bit
+    if kind in ("zero", "sub", "normal"):
+        try:
+            want = ref_value(F, b)
+            y = Fraction(0)
+            if kind == "normal":
+                e2 = max(emin_of(F), (b >> (P[F] - 1) & ((1 << EW[F]) - 1)) - (2 ** (EW[F] - 1) - 1) - 2 * P[F] - 1)
+                y = Fraction(3 + (b & 4), 1) * Fraction(2) ** e2 * (-1 if b & 2 else 1)
+            for q2, tag in ((want, "float"), (want + y, "float+tail")):
+                for L, fn in ((1, False), (2, False), (3, True), (None, False)):
+                    if L is None:
+                        ws = U.fraction2expansion(dt, Fraction(q2), length=None)
+                    else:
+                        ws = U.fraction2expansion(dt, Fraction(q2), length=L, functional=fn)
+                    v = words_value(F, ws)
+                    exact_due = (L is None or len(ws) < L or (tag == "float" and L >= 1))
+                    if exact_due and v != q2:
+                        fail("expansion-from-fraction", f"fraction2expansion:value:{tag}:{kind}", length=L, functional=fn,
+                             got=[pat(w) for w in ws], want=show_q(q2))
+                    if fn and L is not None and len(ws) != L:
+                        fail("expansion-from-fraction", f"fraction2expansion:functional-length:{kind}", length=L, got=len(ws))
+        except Exception as e:
+            fail("expansion-from-fraction-exception", f"fraction2expansion:{kind}:{type(e).__name__}", exc=repr(e)[:200])
     # --- mpf
     if prec >= P[F]:
         try:
